@@ -38,6 +38,10 @@ AsFloors   == \A t \in AsTargets :
                  /\ DurLess(a, DurAdd(r, UnitDur(1, t)))                \* by less than one unit
                  /\ DurAs(r, t) = r                                     \* a whole number of the unit
                  /\ DurAs(DurNeg(a), t) = r
+\* C15 on the specification: reading the printed parts back with the unit lengths of C10 gives the magnitude again -
+\* except where the greedy printer emits "12 months" (a remainder of 360..364 days within a year): twelve months are
+\* read back as one year = 365 days.  The two properties cannot both hold there; the checks list it as a known finding.
+ReadBack == (SumPrinted(DurParts(a)) = a) <=> ((a.d % 365) \notin 360..364)
 UnitsAgree == /\ UnitDur(60, "second") = UnitDur(1, "minute") /\ UnitDur(60, "minute") = UnitDur(1, "hour")
               /\ UnitDur(24, "hour") = UnitDur(1, "day") /\ UnitDur(7, "day") = UnitDur(1, "week")
               /\ UnitDur(12, "month") = UnitDur(1, "year") /\ UnitDur(1, "month") = UnitDur(30, "day")
